@@ -106,6 +106,13 @@ func finish(s Scn, frames [2]int) Scn {
 	if i := strings.Index(script, "@"); i >= 0 {
 		script = script[:i]
 	}
+	if (script == "second-redial" || script == "redundant-redial") && s.Refuse < 0 {
+		s.Refuse, s.Mode = 0, "" // these orderings need a redial that succeeds
+	}
+	if script == "drop" && s.Refuse > 0 {
+		// the held redial attempt must be the one the forwarder lets through: refused attempts must not reach the hook
+		s.Mode = "down"
+	}
 	switch {
 	case script == "w-redials":
 		s.Detector = "writer"
@@ -121,7 +128,7 @@ func finish(s Scn, frames [2]int) Scn {
 		s.Class = "repeated"
 	case s.Budget != 0 && s.Refuse < 0:
 		s.Class = "exhausted"
-	case s.Refuse > 0 || script == "drop" || strings.Contains(s.Script, "@redialfn."):
+	case s.Refuse > 0 || script == "drop" || script == "redundant-redial" || strings.Contains(s.Script, "@redialfn."):
 		s.Class = "during-redial"
 	case s.Base == "awaiting":
 		s.Class = "awaiting-reply"
@@ -140,6 +147,7 @@ var scripts = []string{
 	"r-holds@redial.afterLock", "r-holds@redial.afterCAS", "r-holds@redialfn.afterReset", "r-holds@redialfn.afterPostDial", "r-holds@redialfn.beforeOk",
 	"w-during@rd.enter", "w-during@rd.beforeStatusWrite",
 	"drop@redialfn.afterReset", "drop@redialfn.afterPostDial", "drop@redialfn.beforeOk",
+	"second-redial", "redundant-redial", "slow-handler",
 }
 
 // scenarios builds the deterministic case list of a tier.
@@ -194,6 +202,12 @@ func scenarios(tier string, seed int64) []Scn {
 		}
 		add(Scn{Budget: 3, Base: "awaiting", Script: "w-holds-lock", Writer: "push", UserID: true})
 		add(Scn{Budget: 1, Base: "idle", Script: "w-redials-overlap@rd.beforeSocketClose", Writer: "call", Hook: "handshake"})
+		add(Scn{Budget: 3, Base: "idle", Script: "second-redial", Writer: "call", Hook: "handshake", UserID: true})
+		add(Scn{Budget: 1, Base: "awaiting", Script: "second-redial", Writer: "call", Hook: "plain"})
+		add(Scn{Budget: 1, Base: "idle", Script: "redundant-redial", Writer: "push", UserID: true})
+		add(Scn{Budget: 3, Base: "idle", Script: "slow-handler", Writer: "call", Refuse: -1, Mode: "reject", UserID: true})
+		add(Scn{Budget: 1, Base: "awaiting", Script: "slow-handler", Writer: "call", Hook: "handshake"})
+		add(Scn{Budget: -1, Base: "awaiting", Script: "redundant-redial", Writer: "call", Hook: "handshake"})
 		// repeated
 		add(Scn{Budget: 1, Base: "idle", Losses: 3, UserID: true})
 		add(Scn{Budget: 3, Base: "awaiting", Losses: 2, Refuse: 1, Mode: "reject", Hook: "handshake"})
@@ -279,7 +293,7 @@ func scenarios(tier string, seed int64) []Scn {
 		// with refused attempts and with the server staying down
 		for _, b := range []int{1, 3} {
 			addb(Scn{Budget: b, Base: "awaiting", NCalls: 1, Script: sc, Writer: "call", Refuse: 1, Mode: "reject", Hook: "handshake", UserID: true})
-			if !strings.HasPrefix(sc, "drop@") && !strings.Contains(sc, "@redialfn.") {
+			if !strings.HasPrefix(sc, "drop@") && !strings.Contains(sc, "@redialfn.") && !strings.Contains(sc, "-redial") || sc == "slow-handler" {
 				addb(Scn{Budget: b, Base: "idle", Script: sc, Writer: []string{"call", "push"}[b/2], Refuse: -1, Mode: []string{"reject", "down"}[b/2]})
 			}
 		}
